@@ -3,6 +3,7 @@
          -> ok slots=<..> sat=<n|-> early=<0|1> over=<0|1> | ok stuck | panic makechan
      accepts k=<n> limit=<n> trace=<s0,d0,..,r> slots=<..>   -> ok <0|1>
      lang k=<n> limit=<n> trace=<..>                         -> ok <0|1>
+     race ensemble                                           -> ok norace
    Results are identified by the index of the algorithm that produced them (R = nat, res = id). *)
 From Coq Require Import String.
 From Coq Require Import List NArith ZArith Bool.
@@ -76,6 +77,9 @@ Definition run_accepts (k limit : nat) (t : list event) (slots : list N) : list 
 
 Definition run (line : list N) : list N :=
   match split sp line with
+  | [f; a] =>
+      (* supporting run under the Go race detector: nothing to model, the expected outcome is fixed *)
+      if str_eqb f $"race" then r_ok $"norace" else r_badcase
   | [f; a; b; c] =>
       match strip_prefix $"k=" a, strip_prefix $"limit=" b with
       | Some ks, Some ls =>
